@@ -32,6 +32,10 @@ REG = {
          "See C02."),
  "C11": ("Lean 4 theorems: the scan with early exit returns the first decoded entry whose cumulative time is at least t, else the last one (scanLoop_eq_pickFirst; decoding does not depend on t), an immediate landing for negative t or a plan without entries, the returned action is never 'same as previous' (resolved to the action in force), a cumulative time beyond 32 bits and a duration/delay above 2^24 s are overflow errors, points are stored int16 values times the scale. Correspondence (exact: all outputs are integers below 2^24, scaled int16 or float-rounded integers): generated plans over every action/flag combination, multi-byte and padded varints, cumulative times near 2^32, in/out-of-range point indices, damaged plans; evaluation at every cumulative time +-0.5/+-1, +-inf, NaN.",
          "The field-by-field description of a well-formed entry (which fields follow which action) is the model's scanParams/scanTimes, tied by the correspondence run; NaN time behaves as 'later than every entry' (DESIGN.md 8.3)."),
+ "C06": ("Lean 4 theorem load_equiv: for every byte string and each of the four object kinds, loading through a descriptor and loading from memory either both fail or both succeed, and then hold the same block bytes (built on C04's init/lookup theorems for both backends; error codes may differ only when the data ends inside a block: findOf_same_when_complete). Correspondence (metamorphic, on the implementation itself): the same bytes through a memfd descriptor and through an exactly-sized heap buffer, compared: success class, block bytes, ownership, the whole query battery bit-for-bit, and the battery again after clear; inputs: fixtures, generated show files, every prefix, single-byte edits, mutations, random strings.",
+         "'every later query result is identical' holds by construction in the model (queries are functions of the block bytes) and is established for the implementation by the bit-for-bit battery comparison, not by a theorem. Known finding zero-time-cycle (seek hangs) is shared with C03."),
+ "C03": ("PARTIAL by nature (runtime memory safety cannot be a theorem about a model). Lean 4 theorems for ALL byte strings of any length and all query sequences: every read of the model goes through the checked accessor and the model never faults - container open/lookup (both backends), variable-length integers, trajectory load and every finite history of position/velocity/acceleration/duration queries (trajectory_queries_total: segment building is total and the seek loop ends within length+3 iterations), RTH load/points/evaluation at any time incl. NaN, yaw load and setpoint building (int32 accumulation needs > 65535 setpoints), light executor steps are total functions and a seek can only fail by exhausting fuel. Runtime: the same hostile inputs are run through the real library under ASan+UBSan(+float-cast-overflow) with a 5 s watchdog and every result is compared with the model.",
+         "The sanitizers are the monitor for the compiled code; classes they cannot see (uninitialised reads other than those repaired, intra-object overflow) are covered only where the model represents them (loop stack). One recorded known finding: seek on a light program with a zero-time cycle never returns."),
 }
 
 checks = []
